@@ -46,19 +46,22 @@ func genEngineFaultCase(t *rapid.T) engineFaultCase {
 			}
 		})
 		if !hasWide {
-			// reuse a vector field of the plan if there is one
-			o := spec.ExpectResolved(spec.Resolve(pc.Plan))
-			vw := &spec.VecWideSpec{N: rapid.SampledFrom([]int{1000, 1100}).Draw(t, "cvwN"), Field: "vec", Dim: 2, Metric: "l2_norm", Opt: "recall", Seed: uint32(rapid.IntRange(0, 99).Draw(t, "cvwSeed"))}
-			for f, vf := range o.Vec {
-				vw.Field, vw.Dim, vw.Metric, vw.Opt = f, vf.Dim, vf.Metric, vf.Opt
-				break
-			}
-			for _, leafVec := range []*spec.MergePlan{first} {
-				lo := spec.Expect(leafVec.Leaf)
-				if vf := lo.Vec[vw.Field]; vf != nil {
-					vw.Dim, vw.Metric, vw.Opt = vf.Dim, vf.Metric, vf.Opt
+			// the field's dimension / metric are mapping-level: take them from any leaf
+			// that has the field, else use a field name no schema produces
+			vw := &spec.VecWideSpec{N: rapid.SampledFrom([]int{1000, 1100}).Draw(t, "cvwN"), Field: "vwide", Dim: 2, Metric: "l2_norm", Opt: "recall", Seed: uint32(rapid.IntRange(0, 99).Draw(t, "cvwSeed"))}
+			found := false
+			walkPlan(pc.Plan, func(n *spec.MergePlan) {
+				if found || !n.IsLeaf() {
+					return
 				}
-			}
+				lo := spec.Expect(n.Leaf)
+				for _, f := range []string{"vec", "emb", "v2"} {
+					if vf := lo.Vec[f]; vf != nil && !found {
+						vw.Field, vw.Dim, vw.Metric, vw.Opt = f, vf.Dim, vf.Metric, vf.Opt
+						found = true
+					}
+				}
+			})
 			first.Leaf.VecWide = vw
 		}
 	}
